@@ -5,7 +5,7 @@ import z3
 
 from .sorts import (ArrT, SV, PyVal, PyTuple, Closure, BoundMethod, ModuleRef, ClassRef, SpecFn, INT, BOOL, STR, REAL, VAL, NONE,
                     NONE_V, RefT, SeqT, SetT, MapT, TupT, Val, Ref, null, zsort, fresh, mk_bool, mk_int, mk_str, fresh_name)
-from .values import (nth, OutsideSubset, coerce, box, unbox, py_eq, truthy, ite, tup_items, empty_map, join_sort, is_ref,
+from .values import (mem, nth, OutsideSubset, coerce, box, unbox, py_eq, truthy, ite, tup_items, empty_map, join_sort, is_ref,
                      int_to_str, default_term)
 from .state import PyRaise
 
@@ -124,7 +124,7 @@ class ExprMixin(object):
         return Closure(node, dict(st.env), None)
 
     def ev_IfExp(self, node, st):
-        c = self.truth(st, self.ev(node.test, st))
+        c = self.ev_truth(node.test, st)
         d = self.decided(st, c)
         if d is True:
             return self.ev(node.body, st)
@@ -171,6 +171,25 @@ class ExprMixin(object):
         return True
 
     # ---------------------------------------------------------------- operators
+    def ev_truth(self, node, st):
+        """truth value of an expression in a boolean context (if/while/not/assert): and/or/not combine operand truths, with
+        short-circuit forks where a later operand has effects or may raise"""
+        if isinstance(node, ast.BoolOp):
+            is_and = isinstance(node.op, ast.And)
+            if self.spec_mode or all(self.is_pure(v) for v in node.values[1:]):
+                ts = [self.ev_truth(v, st) for v in node.values]
+                return z3.And(ts) if is_and else z3.Or(ts)
+            acc = self.ev_truth(node.values[0], st)
+            for v in node.values[1:]:
+                go_on = self.choose_bool(st, acc) if is_and else not self.choose_bool(st, acc)
+                if not go_on:
+                    return z3.BoolVal(not is_and)
+                acc = self.ev_truth(v, st)
+            return acc
+        if isinstance(node, ast.UnaryOp) and isinstance(node.op, ast.Not):
+            return z3.Not(self.ev_truth(node.operand, st))
+        return self.truth(st, self.ev(node, st))
+
     def ev_BoolOp(self, node, st):
         is_and = isinstance(node.op, ast.And)
         vals = node.values
@@ -179,6 +198,9 @@ class ExprMixin(object):
             svs = [self.ev(v, st) for v in vals]
             if all(getattr(s, 'sort', None) == BOOL for s in svs):
                 return mk_bool(z3.And([s.t for s in svs]) if is_and else z3.Or([s.t for s in svs]))
+            for s in svs:
+                if is_ref(getattr(s, 'sort', None)) and self.reg.class_info(s.sort.cls, 'len') is not None:
+                    raise OutsideSubset('value of and/or over a sized object outside a boolean context')
             res = svs[-1]
             for s in reversed(svs[:-1]):
                 c = self.truth(st, s)
@@ -194,9 +216,9 @@ class ExprMixin(object):
         return res
 
     def ev_UnaryOp(self, node, st):
-        v = self.ev(node.operand, st)
         if isinstance(node.op, ast.Not):
-            return mk_bool(z3.Not(self.truth(st, v)))
+            return mk_bool(z3.Not(self.ev_truth(node.operand, st)))
+        v = self.ev(node.operand, st)
         if isinstance(node.op, ast.USub):
             if v.sort == INT:
                 return SV(INT, -v.t)
@@ -398,6 +420,8 @@ class ExprMixin(object):
             return z3.Select(cont.c['dom'], coerce(x, s.k).t)
         if s == STR:
             return z3.Contains(cont.t, coerce(x, STR).t)
+        if is_ref(s) and self.reg.class_info(s.cls, 'dictfield'):
+            return self.contains(self.dict_of(st, cont), x, st)
         if is_ref(s):
             text = self.reg.class_info(s.cls, 'contains')
             if text is not None:
@@ -406,6 +430,15 @@ class ExprMixin(object):
             if m is not None:
                 return self.truth(st, self.call_contract(m, [cont, x], {}, st))
         raise OutsideSubset('membership in %s' % s)
+
+    def dict_of(self, st, ref):
+        """objects of dict subclasses (Link): the dict itself is the pseudo field named by the class fact `dictfield`"""
+        key = self.reg.field_key(ref.sort.cls, self.reg.class_info(ref.sort.cls, 'dictfield'))
+        return self.heap_get(st, key, ref.t)
+
+    def dict_store(self, st, ref, m):
+        key = self.reg.field_key(ref.sort.cls, self.reg.class_info(ref.sort.cls, 'dictfield'))
+        self.heap_set(st, key, ref.t, m)
 
     def seq_append(self, st, a, x):
         """a + [x] as a named sequence with its element-wise definition (triggers on r[i] let quantified invariants about `a` fire)"""
@@ -416,6 +449,9 @@ class ExprMixin(object):
         st.assume(z3.Length(r.t) == n + 1)
         st.assume(nth(r.t, n) == x.t)
         st.assume(z3.ForAll([i], z3.Implies(z3.And(0 <= i, i < n), nth(r.t, i) == nth(a.t, i)), patterns=[nth(r.t, i)]))
+        if a.sort.elem != VAL and not isinstance(a.sort.elem, TupT):
+            v = z3.Const(fresh_name('av'), zsort(a.sort.elem))
+            st.assume(z3.ForAll([v], mem(r.t, v) == z3.Or(mem(a.t, v), v == x.t), patterns=[mem(r.t, v)]))
         return r
 
     def seq_remove_at(self, st, a, p):
@@ -433,6 +469,8 @@ class ExprMixin(object):
         n = z3.simplify(z3.Length(cont.t))
         if z3.is_int_value(n) and n.as_long() <= 6:
             return z3.Or([py_eq(SV(cont.sort.elem, z3.simplify(nth(cont.t, k))), x) for k in range(n.as_long())]) if n.as_long() else z3.BoolVal(False)
+        if cont.sort.elem != VAL and not isinstance(cont.sort.elem, TupT):
+            return mem(cont.t, coerce(x, cont.sort.elem).t)
         i = z3.Int(fresh_name('ci'))
         el = SV(cont.sort.elem, nth(cont.t, i))
         return z3.Exists([i], z3.And(0 <= i, i < z3.Length(cont.t), py_eq(el, x)))
@@ -540,6 +578,8 @@ class ExprMixin(object):
             v = SV(s.v, z3.Select(base.c['val'], k.t))
             self.assume_field_invariant(st, v)
             return v
+        if is_ref(s) and self.reg.class_info(s.cls, 'dictfield'):
+            return self.getitem(self.dict_of(st, base), idx, st)
         if is_ref(s):
             i = None if isinstance(idx, PyVal) else z3.simplify(idx.t) if idx.sort == INT else None
             if i is not None and z3.is_int_value(i):
@@ -606,8 +646,8 @@ class ExprMixin(object):
         st.env = dict(saved)
         st.env.update(env_add)
         try:
-            conds = [self.truth(st, self.ev(c, st)) for c in g.ifs]
-            body = self.truth(st, self.ev(node.elt, st))
+            conds = [self.ev_truth(c, st) for c in g.ifs]
+            body = self.ev_truth(node.elt, st)
         finally:
             st.env = saved
         if universal:
@@ -671,12 +711,16 @@ class ExprMixin(object):
             if s.elem is None:
                 return SV(SeqT(VAL), z3.Empty(z3.SeqSort(Val)))
             return v
+        if isinstance(s, SetT) and s.elem is None:
+            return SV(SeqT(None), {})
         if isinstance(s, MapT):
             if s.k is None:
                 return SV(SeqT(VAL), z3.Empty(z3.SeqSort(Val)))
             if not self.spec_mode:
                 self.assume_map_wf(st, v)
             return SV(SeqT(s.k), v.c['keys'])
+        if is_ref(s) and self.reg.class_info(s.cls, 'dictfield'):
+            return self.as_seq(self.dict_of(st, v), st)
         if is_ref(s):
             text = self.reg.class_info(s.cls, 'iter')
             if text is not None:
